@@ -59,6 +59,9 @@ pub struct CallRecord {
     /// put payload
     pub data: Option<Arc<Vec<u8>>>,
     pub ok: bool,
+    /// the error was scripted (otherwise a failed call is the store's genuine answer, e.g.
+    /// NotFound)
+    pub injected: bool,
     /// whatever `set_task` said when the call was performed (step scheduler)
     pub task: u8,
 }
@@ -76,7 +79,13 @@ impl CallRecord {
                 Some(d) => format!(" ({}B)", d.len()),
                 None => String::new(),
             },
-            if self.ok { "" } else { " FAILED" }
+            if self.ok {
+                ""
+            } else if self.injected {
+                " FAILED (injected)"
+            } else {
+                " -> error (not found)"
+            }
         )
     }
 }
@@ -207,9 +216,11 @@ impl TraceObjectStore {
             key2: key2.map(|s| s.to_string()),
             data: data.map(|d| Arc::new(d.to_vec())),
             ok: true,
+            injected: false,
             task,
         });
         let f = g.faults.get(&idx).cloned();
+        g.calls[idx].injected = f.is_some();
         (idx, f)
     }
 
